@@ -215,7 +215,12 @@ def fast_ratio():
 
 
 def rest_list(hi=1e5, max_size=6):
-    return st.lists(st.one_of(st.just(0.0), logu(1e-3, hi), logu(1e-3, hi)), min_size=1, max_size=max_size)
+    short = st.lists(st.one_of(st.just(0.0), logu(1e-3, hi), logu(1e-3, hi)), min_size=1, max_size=max_size)
+    # a decay CURVE: 64..100 rest times (a plot, a fit), not in order, with repeats - far longer than the handful a
+    # user types, which is where a vectorised fast path would begin
+    curve = st.tuples(st.integers(64, 100), logu(1e-3, hi), st.integers(1, 7)).map(
+        lambda t: [round(t[1] * ((k * t[2]) % t[0]) / t[0], 6) for k in range(t[0])])
+    return st.one_of(*([short] * 14 + [curve]))
 
 
 def environment(fl=(1e2, 1e16), ex=(1e-3, 1e4)):
